@@ -97,6 +97,12 @@ def _w(prop):
                              crossmid=False, weeks=(3, 6)), False),
             (3, "core-asap", dict(core=True, subslot=False, alap=False, res_choices=(60, 30, 15), nres=(1, 3), ntasks=(2, 8), limits=False,
                                   teams=False), True),
+            # alternatives: whichever candidate is booked, IT must not be left idle (seeded change C08-e started the backward
+            # walk at the primary's last shift although the alternative was the one booked)
+            (2, "alap-alternatives", dict(res_choices=(60, 30), subslot=False, alap=True, nres=(2, 4), ntasks=(2, 7), tz=False, limits=False, teams=False,
+                                          crossmid=False, weeks=(3, 6), alts=True), False),
+            (1, "asap-alternatives", dict(res_choices=(60, 30), subslot=False, alap=False, nres=(2, 4), ntasks=(2, 7), tz=False, limits=False, teams=False,
+                                          crossmid=False, weeks=(2, 4), alts=True), False),
         ]
     if prop == "C10":
         return [
